@@ -91,7 +91,7 @@ def check_pure(inp):
 def sweep_pure(tier, seed):
   for name in ('fed_avg', 'fed_prox', 'mime', 'mime_lite', 'agnostic', 'apfl'):
     yield dict(alg=name, rounds=[[3, 2], [2, 0, 4], [3, 2]])
-  for a in ('uniform', 'rotated', 'drive', 'terngrad'):
+  for a in ('uniform', 'arithmetic', 'rotated', 'drive', 'terngrad'):
     yield dict(alg='agg:' + a, rounds=4)
 
 
@@ -99,6 +99,7 @@ def check_agg(inp):
   which = inp['alg'][4:]
   key = jax.random.PRNGKey(3)
   agg = {'uniform': lambda: compression.uniform_stochastic_quantizer(4, key),
+         'arithmetic': lambda: compression.uniform_stochastic_quantizer(4, key, encode_algorithm='arithmetic'),
          'rotated': lambda: compression.rotated_uniform_stochastic_quantizer(4, key),
          'drive': lambda: compression.structured_drive_quantizer(key),
          'terngrad': lambda: compression.terngrad_quantizer(key)}[which]()
@@ -109,6 +110,9 @@ def check_agg(inp):
   keys = [np.asarray(st.rng).tobytes()]
   for r in range(inp['rounds']):
     before = snapshot(st)
+    if which == 'arithmetic':
+      # different updates every round, so that the per-round bit counts differ
+      cl = [(cid, {'w': jnp.asarray(rng.randn(8 + r).astype(np.float32))}, w) for cid, _, w in cl]
     out1, n1 = agg.apply(iter(cl), st)
     out2, n2 = agg.apply(iter(cl), st)
     if snapshot(st) != before:
